@@ -56,14 +56,27 @@ def extract():
     tw_fill = [_kwargs(c) for c in _calls(w, "textwrap", "fill")]
     if len(tw_wrap) != 1 or len(tw_fill) != 1:
         raise ExtractError(f"expected one textwrap.wrap and one textwrap.fill call in wrap, found {len(tw_wrap)}/{len(tw_fill)}")
+    def method_calls(node, attr):
+        out = [c for c in ast.walk(node) if isinstance(c, ast.Call) and isinstance(c.func, ast.Attribute) and c.func.attr == attr]
+        return sorted(out, key=lambda c: (c.lineno, c.col_offset))
+
+    # the prologue of wrap: text.expandtabs().lstrip(<blanks>)
+    prologue = [[ast.unparse(a) for a in c.args] for c in method_calls(w, "expandtabs")] + \
+               [[_const_str(a, "lstrip argument") for a in c.args] for c in method_calls(w, "lstrip")]
     consts = sorted({repr(n.value) for n in ast.walk(w) if isinstance(n, ast.Constant) and isinstance(n.value, (int, float)) and not isinstance(n.value, bool)})
     r = _func(_parse("gapic/utils/rst.py"), "rst")
     searches = [_const_str(c.args[0], "rst re.search pattern") for c in _calls(r, "re", "search")]
     rwrap = [_kwargs(c) for c in ast.walk(r) if isinstance(c, ast.Call) and isinstance(c.func, ast.Name) and c.func.id == "wrap"]
     if len(searches) != 1 or len(rwrap) != 1:
         raise ExtractError("rst: expected one re.search and one wrap call")
+    # the tail of rst: str.replace calls with literal arguments, endswith tests, and what is appended
+    rst_replaces = [(c.args[0].value, c.args[1].value) for c in method_calls(r, "replace")
+                    if len(c.args) == 2 and all(isinstance(a, ast.Constant) and isinstance(a.value, str) for a in c.args)]
+    rst_endswith = [_const_str(c.args[0], "endswith argument") for c in method_calls(r, "endswith")]
+    rst_appends = [ast.unparse(n.value) for n in sorted((n for n in ast.walk(r) if isinstance(n, ast.AugAssign)), key=lambda n: n.lineno)]
     return {"fw_subs": subs, "numbered": numbered, "wrap_subs": wsubs, "tw_wrap": tw_wrap[0], "tw_fill": tw_fill[0],
-            "wrap_numbers": consts, "rst_search": searches[0], "rst_wrap": rwrap[0]}
+            "wrap_numbers": consts, "rst_search": searches[0], "rst_wrap": rwrap[0], "wrap_prologue": prologue,
+            "rst_replaces": rst_replaces, "rst_endswith": rst_endswith, "rst_appends": rst_appends}
 
 
 def write_gen():
@@ -78,6 +91,10 @@ def write_gen():
             f"Definition wrap_tw_fill_kwargs : list (string * string) := {pl(x['tw_fill'])}.\n"
             f"Definition wrap_numbers : list string := {coq.slist(x['wrap_numbers'])}.\n"
             f"Definition rst_search_re : string := {coq.s(x['rst_search'])}.\n"
-            f"Definition rst_wrap_kwargs : list (string * string) := {pl(x['rst_wrap'])}.\n")
+            f"Definition rst_wrap_kwargs : list (string * string) := {pl(x['rst_wrap'])}.\n"
+            f"Definition wrap_prologue_calls : list (list string) := {coq.lst(coq.slist(a) for a in x['wrap_prologue'])}.\n"
+            f"Definition rst_replaces : list (string * string) := {pl(x['rst_replaces'])}.\n"
+            f"Definition rst_endswith : list string := {coq.slist(x['rst_endswith'])}.\n"
+            f"Definition rst_appends : list string := {coq.slist(x['rst_appends'])}.\n")
     coq.write_gen("C20Lit", text)
     return x
